@@ -86,6 +86,39 @@ def observe(sc, r: FunctionResults | None, outcome, layout):
     return ev
 
 
+def single_objective(sc):
+    R = sc["R"]
+    cfg = {"variables": {"initial_values": [0.0, 0.0]},
+           "realizations": {"weights": [float(w) for w in sc["rw"]], "realization_min_success": sc["minsucc"]},
+           "objectives": {"weights": [float(sc["ow"][0]) + 3.0], "realization_filters": [sc["flt"][0]],
+                          "function_estimators": [EST[sc["est"][0]]]},
+           "function_estimators": [{"method": "mean"}, {"method": "stddev"}],
+           "realization_filters": [{"method": "sort-objective", "options": {"sort": [0], "first": 0, "last": 0 if R == 1 else R - 2}}]}
+    column = np.array(sc["cols"][0], dtype=np.float64)
+    column[np.array(sc["failed"], dtype=bool)] = np.nan
+
+    def evaluator(variables, context):
+        return EvaluatorResult(objectives=column[context.realizations][:, None].copy())
+
+    res, outcome = outcome_of(lambda: ensemble_evaluator(EnOptConfig.model_validate(cfg), evaluator).calculate(
+        np.array([0.0, 0.0]), compute_functions=True, compute_gradients=False))
+    ev = {"ev": "One", "layout": "one", **{k: sc[k] for k in ("R", "rw", "ow", "est", "flt", "cols", "failed", "minsucc")},
+          "outcome": outcome, "failedObs": [False] * R, "obj": nums([None, None]), "con": nums([None]),
+          "wobj": num(None), "orows": [], "crows": [], "stdneg": [False] * 3}
+    r = res[0] if res else None
+    if r is not None and r.functions is None:
+        ev["outcome"] = "nofunctions"
+    elif r is not None:
+        v = float(r.functions.objectives[0])
+        if np.isnan(v):
+            ev["outcome"] = "allnan"
+        else:
+            ev["obj"] = nums([v * v if sc["est"][0] == "std" else v, None])
+            ev["stdneg"] = [bool(sc["est"][0] == "std" and v < 0), False, False]
+            ev["wobj"] = num(float(r.functions.weighted_objective))
+    return ev
+
+
 def drive(sc):
     config = build_config(sc)
     trace = []
@@ -127,6 +160,9 @@ def drive(sc):
         _, outcome = outcome_of(lambda: plan.run_step(step, config=config, variables=[0.0, 0.0]))
         fr = next((x for x in seen if isinstance(x, FunctionResults)), None)
         trace.append(observe(sc, fr, outcome, "plan"))
+    # the same ensemble as a problem with its first objective only: one objective with an explicit weight other than one
+    if sc.get("expect", "ok") == "ok" and sc["flt"][0] in (-1, 0):
+        trace.append(single_objective(sc))
     failed = sc["failed"]
     succ = [i for i in range(sc["R"]) if not failed[i]]
     feats = {
